@@ -40,7 +40,7 @@ M_RULE = ("run i = scenario picked by splitmix(VERIF_SEED, property, i); one xos
           "A run's signature hashes the baton hand-overs (from, to) together with each kernel's event sequence; 'distinct' counts different signatures.")
 M_STUB = K_STUB[:2] + ["the OS scheduler: threads are real, but a thread only runs while it holds the baton; blocking (futex wait, pthread_join, idle io_uring_enter) hands it on", "blocking-pool threads are real threads of the run (started through hook H1), scheduled like the others"]
 M_ASSUME = ["threads interleave only at the intercepted points (guarded hooks in compio-executor/driver, vendored flume locks, kernel entries, futex waits, thread start/end); between two such points a thread runs alone, so data races inside such a stretch and weak-memory effects are not explored",
-            "few preemptions per run (0..4, PCT-style) plus all voluntary switches", "io_uring driver only (the polling driver's wait is not multi-thread aware in the simulator)",
+            "few preemptions per run (0..4, PCT-style) plus all voluntary switches", "both drivers (io_uring on each thread's simulated ring; polling driver with each thread's real epoll instance asked with zero time-outs)",
             "a run that deadlocks ends its worker process (the threads are real); it is reported as a violation whose replay regenerates the run from its seed, unminimised",
             "sampling, not enumeration"]
 
